@@ -33,6 +33,14 @@ var (
 
 var keepWords = map[string]bool{"declared": true, "and": true, "not": true, "used": true, "undefined": true, "cannot": true, "use": true, "as": true, "value": true, "in": true, "assignment": true, "argument": true, "to": true, "type": true, "variable": true, "of": true, "struct": true, "literal": true, "invalid": true, "operation": true, "mismatched": true, "types": true, "untyped": true, "nil": true, "no": true, "new": true, "variables": true, "on": true, "left": true, "side": true, "convert": true, "need": true, "assertion": true, "redeclared": true, "this": true, "block": true, "missing": true, "return": true, "imported": true, "indirect": true, "string": true, "int": true, "bool": true, "any": true, "float64": true, "float32": true, "byte": true, "duplicate": true, "field": true, "method": true, "has": true, "or": true, "is": true, "a": true, "package": true, "expected": true, "found": true, "unknown": true, "name": true, "too": true, "many": true, "few": true, "arguments": true, "call": true, "want": true, "have": true, "does": true, "implement": true, "pointer": true, "receiver": true, "other": true, "declaration": true, "unexported": true, "already": true, "declared.": true, "case": true, "switch": true, "func": true, "map": true, "key": true, "index": true, "out": true, "range": true, "panic": true, "runtime": true, "error": true, "slice": true, "bounds": true, "dereference": true, "memory": true, "address": true, "makeslice": true, "len": true, "interface": true, "conversion": true, "template": true, "executing": true, "syntax": true}
 
+// genTimeout is the wall-clock budget of one generator run (Session.GenTimeout, default 120s).
+func (s *Session) genTimeout() time.Duration {
+	if s.GenTimeout > 0 {
+		return s.GenTimeout
+	}
+	return 120 * time.Second
+}
+
 // Signature normalises a diagnostic/panic text so that failures with the same
 // root cause usually collapse into one cluster.
 func Signature(kind, detail string) string {
@@ -96,10 +104,10 @@ func (s *Session) GenerateAndCompile(d *model.Design, withExample bool) *Outcome
 		o.Sig = Signature(kind, detail)
 		return o
 	}
-	v := s.Eval(run, "gen", 120*time.Second)
+	v := s.Eval(run, "gen", s.genTimeout())
 	switch {
 	case v.TimedOut:
-		return fail("timeout", "goaeval gen did not finish in 120s")
+		return fail("timeout", fmt.Sprintf("goaeval gen did not finish in %v", s.genTimeout()))
 	case v.Raw != "":
 		return fail("crash", v.Raw)
 	case v.Panic != "" && !v.Accepted:
@@ -117,10 +125,10 @@ func (s *Session) GenerateAndCompile(d *model.Design, withExample bool) *Outcome
 	}
 	o.Files = len(v.Files)
 	if withExample {
-		ve := s.Eval(run, "example", 120*time.Second)
+		ve := s.Eval(run, "example", s.genTimeout())
 		switch {
 		case ve.TimedOut:
-			return fail("timeout", "goaeval example did not finish in 120s")
+			return fail("timeout", fmt.Sprintf("goaeval example did not finish in %v", s.genTimeout()))
 		case ve.Raw != "":
 			return fail("crash", ve.Raw)
 		case ve.Panic != "":
